@@ -187,6 +187,13 @@ func runC02(r *Report, tier string) {
 	checkMarshalBuckets(r, "R09.2")
 	checkHeadNormalizer(r, "R02.3")
 	checkRawBucketWriters(r, "R02.4")
+	// nil and empty external data are one case for the algorithm gates as
+	// well (the gates decide whether alg is injected into the signed bytes)
+	r.rule("R04.2", "(shared with C04) each success path of an algorithm gate is alg equal, alg absent with len(external) > 0, or (sign side) alg injected: external data counts by length, never by nil-ness.")
+	checkGatesOnly(r)
+	// the protected bytes a later Verify reads are the decoder's own copy
+	r.rule("R19.3", "(shared with C19) no in-package UnmarshalCBOR retains its input buffer or a sub-slice of it; wire-struct slots are types the mode fills with a copy.")
+	checkInputNotRetained(r, "R19.3")
 }
 
 // encoderDeterministic: "" when the named encode mode is built with the
@@ -415,11 +422,32 @@ func checkRawBucketWriters(r *Report, rule string) {
 				}
 				n++
 				root, _ := P.terms.addrPath(st.Addr)
-				_, local := root.(*ssa.Alloc)
+				al, local := root.(*ssa.Alloc)
+				if local && al.Heap && !decFam[fn] {
+					// a local whose address leaves the function (returned
+					// message) is not the function's private copy
+					local = !allocReturned(al)
+				}
 				o := r.ob(rule, shortFn(fn)+":store:"+f, fn, st, "retained raw header bytes are written only while a decoder builds the value, or in a function's own by-value copy")
 				o.check(local || decFam[fn], "local value or decoder family", "Headers."+f+" of a value reached through a pointer is overwritten outside the decoders: a verifier that runs afterwards no longer sees the bytes as received")
 			}
 		}
 	}
 	r.floorSoft(rule, n, 2, "stores into raw header fields")
+}
+
+// allocReturned: the address of the alloc is a result of its function.
+func allocReturned(a *ssa.Alloc) bool {
+	for _, b := range a.Parent().Blocks {
+		for _, in := range b.Instrs {
+			if ret, ok := in.(*ssa.Return); ok {
+				for _, v := range ret.Results {
+					if v == ssa.Value(a) {
+						return true
+					}
+				}
+			}
+		}
+	}
+	return false
 }
